@@ -78,6 +78,8 @@ def cases(seed, quick):
             out.append({"kind": name, "bits": bits, "signed": signed, "text": list(t), "s": t, "variant": "plain", "shape": "single"})
             if t[0] in "+-" and not t[1:2] in ("+", "-", ""):
                 out.append({"kind": name, "bits": bits, "signed": signed, "text": list(t), "s": t, "variant": rng.choice(["plain", "plain", "ptr", "named", "ptrnamed"]), "shape": "joined"})
+                if rng.random() < 0.4:   # the capture starts at the very first token of the input (no leading elided text)
+                    out.append({"kind": name, "bits": bits, "signed": signed, "text": list(t), "s": t, "variant": rng.choice(["plain", "ptr", "named"]), "shape": "joined0"})
                 if rng.random() < 0.5:   # an elided token between the sign and the number: only the captured tokens are joined
                     out.append({"kind": name, "bits": bits, "signed": signed, "text": list(t), "s": t, "variant": rng.choice(["plain", "ptr", "named"]), "shape": "joinedsp"})
             if rng.random() < 0.3:       # the same scalar field captured twice: every capture is converted, the last one is kept
